@@ -293,17 +293,32 @@ func LoadKnown(path string) ([]Known, error) {
 func MatchKnown(ks []Known, v Violation) *Known {
 	for i := range ks {
 		k := &ks[i]
-		if k.Property != v.Prop {
-			continue
-		}
-		if k.Signature == v.Signature {
-			return k
-		}
-		if strings.HasSuffix(k.Signature, "*") && strings.HasPrefix(v.Signature, strings.TrimSuffix(k.Signature, "*")) {
+		if k.Property == v.Prop && wildMatch(k.Signature, v.Signature) {
 			return k
 		}
 	}
 	return nil
+}
+
+// wildMatch: '*' in the pattern matches any (possibly empty) run of characters.
+func wildMatch(pat, s string) bool {
+	if !strings.Contains(pat, "*") {
+		return pat == s
+	}
+	parts := strings.Split(pat, "*")
+	if !strings.HasPrefix(s, parts[0]) {
+		return false
+	}
+	s = s[len(parts[0]):]
+	last := parts[len(parts)-1]
+	for _, p := range parts[1 : len(parts)-1] {
+		i := strings.Index(s, p)
+		if i < 0 {
+			return false
+		}
+		s = s[i+len(p):]
+	}
+	return strings.HasSuffix(s, last)
 }
 
 // helpers for swarm generation
